@@ -85,6 +85,8 @@ func c06Err(err error) string {
 		return "nospace"
 	case err.Error() == "metadata does not exist":
 		return "mdmissing"
+	case err.Error() == "invalid blob key":
+		return "invalidkey"
 	case errors.Is(err, os.ErrExist):
 		return "io-exist"
 	case errors.Is(err, os.ErrNotExist):
@@ -432,7 +434,9 @@ func c06Exec(t *verifh.T, c verifh.Case, caseIdx int, base string, plans map[[2]
 		case "shard":
 			e.shard = n
 		case "cap":
-			e.capacity = uint64(n)
+			if u, err := strconv.ParseUint(kv[1], 10, 64); err == nil {
+				e.capacity = u
+			}
 		case "crash":
 			e.crashMode = kv[1]
 		}
@@ -703,6 +707,23 @@ func c06Cases() []verifh.Case {
 		}
 	}
 	r := verifh.NewRand(verifh.Seed(), "c06")
+	// reservations of more than one digit, beyond 32 bits and at 2^63: the `_size` sidecar's text
+	// (strconv.Itoa(int(size)) / Atoi) against the model's encodeNat / parseSize; one large blob per case
+	for i := 0; i < verifh.Scale(12, 200); i++ {
+		big := r.Pick("10", "12", "255", "4294967296", "4294967297", "9223372036854775807", "9223372036854775808", "12345678901")
+		small := r.Pick("10", "11", "100")
+		cfg := []string{"reboot=" + r.Pick("1", "1", "0"), "shard=" + r.Pick("0", "1", "2"), "cap=18000000000000000000", "crash=all"}
+		ops := [][]string{{"op", "create", "aa11", big}, {"op", "write", "aa11", "0", "x6162"}, {"op", "create", "aa22", small},
+			{"op", "write", "aa22", strconv.Itoa(r.Intn(12)), "x63"}, {"op", "reboot", "mt=aa11,aa22"}}
+		if r.Chance(1, 2) {
+			ops = append(ops, []string{"op", "mc", "aa22"}, []string{"op", "setmd", "aa22", "_vm0", "x6d"})
+		}
+		if r.Chance(1, 2) {
+			ops = append(ops, []string{"op", "mc", "aa11"}, []string{"op", "reboot", "mt=aa22,aa11"})
+		}
+		ops = append(ops, []string{"op", "delete", r.Pick("aa11", "aa22")}, []string{"op", "create", "bb33", r.Pick("10", "1000000")})
+		out = append(out, verifh.Case{Cfg: cfg, Ops: ops})
+	}
 	for i := 0; i < verifh.Scale(150, 3000); i++ {
 		out = append(out, c06RandomCase(r, false))
 	}
